@@ -795,8 +795,10 @@ def map_children(e, f, payload=None):
     return e
 
 
-def subst_types(e, tmap, memo=None):
-    """Instantiate the type parameters mentioned by constant references (`<F as Trait>::NAME` with F := concrete)."""
+def subst_types(e, tmap, memo=None, prog=None):
+    """Instantiate type parameters: constant references (`<F as Trait>::NAME` with F := concrete) and, when `prog` is
+    given, calls of crate-trait methods on a type parameter (`x.method()` with x: S, S := concrete), which are
+    re-targeted at the impl that provides the method."""
     if memo is None:
         memo = {}
     key = id(e)
@@ -805,7 +807,11 @@ def subst_types(e, tmap, memo=None):
     if e[0] == "uconst":
         out = ("uconst", e[1], tuple(tmap.get(a, a) for a in e[2]), e[3])
     else:
-        out = map_children(e, lambda x: subst_types(x, tmap, memo), None)
+        out = map_children(e, lambda x: subst_types(x, tmap, memo, prog), None)
+        if prog is not None and out[0] == "call" and out[2] is not None:
+            rc = prog.resolve_trait_call(out[2], tmap)
+            if rc is not None:
+                out = ("call", out[1], rc, out[3])
     memo[key] = out
     return out
 
